@@ -24,18 +24,26 @@ def ruleOf? : Term → Option Rule
   | .list [.atom "rule", c, a] => do pure ⟨← condOf? c, ← actOf? a⟩
   | _ => none
 
+def bit (n k : Nat) : Bool := (n / k) % 2 == 1
+
 def opOf? : Term → Option Op
-  | .list [.atom "ins", s, f, i, pid, nh, lp, cl, rts] => do
-      pure (.ins (← asNat? s) ⟨← asNat? f, ← asNat? i⟩ (← asNat? pid) (← asNat? nh) (← asNat? lp)
-                 (← asNat? cl) (← natsOf? rts))
+  | .list [.atom "ins", s, f, i, pid, nh, lp, cl, rts, asl, org, fl] => do
+      let fl ← asNat? fl
+      if fl ≥ 8 then none
+      pure (.ins (← asNat? s) ⟨← asNat? f, ← asNat? i⟩ (← asNat? pid) (← asNat? nh)
+        ⟨← asNat? lp, ← asNat? cl, ← natsOf? rts, ← asNat? asl, ← asNat? org, bit fl 1, bit fl 2, bit fl 4⟩)
   | .list [.atom "rm", s, f, i, pid] => do
       pure (.rm (← asNat? s) ⟨← asNat? f, ← asNat? i⟩ (← asNat? pid))
   | .list [.atom "down", k] => (asNat? k).map .down
+  | .list [.atom "drop", k] => (asNat? k).map .drop
   | .list [.atom "stale", k] => (asNat? k).map .stale
   | .list [.atom "purge", k] => (asNat? k).map .purge
+  | .list [.atom "llgr", k] => (asNat? k).map .llgr
+  | .list [.atom "lpurge", k] => (asNat? k).map .lpurge
   | .list [.atom "soft", k] => (asNat? k).map .soft
   | .list (.atom "pol" :: rs) => (rs.mapM ruleOf?).map .pol
   | .list [.atom "nh", a, r] => do pure (.nh (← asNat? a) (← asBool? r))
+  | .list [.atom "undefer", f] => (asNat? f).map .undefer
   | _ => none
 
 def vrfOf? (t : Term) : Option Vrf := do
@@ -43,36 +51,45 @@ def vrfOf? (t : Term) : Option Vrf := do
   | tid :: rts => pure ⟨tid, rts⟩
   | [] => none
 
-def caseOf? : Term → Option (Cfg × List Op)
-  | .list [.atom "case", .list (.atom "peers" :: rids), .list (.atom "vrfs" :: vs), .list (.atom "ops" :: os)] => do
-      let cfg : Cfg := ⟨← rids.mapM asNat?, ← vs.mapM vrfOf?⟩
-      let ops ← os.mapM opOf?
-      if cfg.wf && ops.all (Op.wf cfg) then pure (cfg, ops) else none
+def peerOf? : Term → Option (Nat × Nat)
+  | .list [r, role] => do pure (← asNat? r, ← asNat? role)
   | _ => none
 
-def svcReqOf? : Term → Option (Bool × Addr)
+/-- case ↦ configuration, history, and whether the tracking requests are fed to the service loop -/
+def caseOf? : Term → Option (Cfg × List Op × Bool)
+  | .list [.atom "case", .list (.atom "peers" :: ps), .list (.atom "vrfs" :: vs),
+           .list [.atom "opts", .list (.atom "defer" :: ds), .list [.atom "feed", fd]],
+           .list (.atom "ops" :: os)] => do
+      let cfg : Cfg := ⟨← ps.mapM peerOf?, ← vs.mapM vrfOf?, ← ds.mapM asNat?⟩
+      let ops ← os.mapM opOf?
+      let fd ← asBool? fd
+      if cfg.wf && ops.all (Op.wf cfg) then pure (cfg, ops, fd) else none
+  | _ => none
+
+def svcReqOf? : Term → Option (Option (Bool × Addr))
+  | .atom "e" => some none
   | .list [.atom "r", a] => do
       let a ← asNat? a
-      if a < 90 then pure (true, a) else none
+      if a < 90 then pure (some (true, a)) else none
   | .list [.atom "u", a] => do
       let a ← asNat? a
-      if a < 90 then pure (false, a) else none
+      if a < 90 then pure (some (false, a)) else none
   | _ => none
 
-def svcOf? : Term → Option (List (Bool × Addr))
+def svcOf? : Term → Option (List (Option (Bool × Addr)))
   | .list (.atom "svc" :: rs) => rs.mapM svcReqOf?
   | _ => none
 
 -- ---------------------------------------------------------------- observations
 
 def pathObsT (p : PathObs) : Term :=
-  tag "p" [nat p.src, nat p.pid, nat p.nh, bool p.flt, bool p.stale, nat p.lp, bool p.eb, nat p.cl,
-           nat p.rid, ofList nat p.rts]
+  tag "p" [nat p.src, nat p.pid, nat p.nh, bool p.flt, bool p.stale, bool p.llgr, nat p.lp, nat p.asl, nat p.org,
+           bool p.eb, nat p.cl, nat p.rid, ofList nat p.rts]
 
 def pathObsOf? : Term → Option PathObs
-  | .list [.atom "p", s, pid, nh, flt, st, lp, eb, cl, rid, rts] => do
-      pure ⟨← asNat? s, ← asNat? pid, ← asNat? nh, ← asBool? flt, ← asBool? st, ← asNat? lp, ← asBool? eb,
-            ← asNat? cl, ← asNat? rid, ← natsOf? rts⟩
+  | .list [.atom "p", s, pid, nh, flt, st, lg, lp, asl, org, eb, cl, rid, rts] => do
+      pure ⟨← asNat? s, ← asNat? pid, ← asNat? nh, ← asBool? flt, ← asBool? st, ← asBool? lg, ← asNat? lp,
+            ← asNat? asl, ← asNat? org, ← asBool? eb, ← asNat? cl, ← asNat? rid, ← natsOf? rts⟩
   | _ => none
 
 def destObsT (d : DestObs) : Term := list (sym "d" :: nat d.pfx.fam :: nat d.pfx.id :: d.paths.map pathObsT)
@@ -98,24 +115,41 @@ def stepObsOf? : Term → Option StepObs
       pure ⟨← fs.mapM fibReqOf?, ← ns.mapM nhtOf?, ← ds.mapM destObsOf?⟩
   | _ => none
 
-def traceT (l : List StepObs) : Term := tag "trace" (l.map stepObsT)
-def traceOf? : Term → Option (List StepObs)
-  | .list (.atom "trace" :: ss) => ss.mapM stepObsOf?
+def finalsT (fs : List (Addr × Nat)) : List Term := fs.map (fun e => list [nat e.1, nat e.2])
+def finalsOf? (fs : List Term) : Option (List (Addr × Nat)) :=
+  fs.mapM (fun t => match t with
+    | .list [a, c] => do pure ((← asNat? a), (← asNat? c))
+    | _ => none)
+
+/-- `(trace step... )`, followed by `(feed (addr count)...)` when the requests were fed to the service -/
+def traceT (l : List StepObs) (feed : Option (List (Addr × Nat))) : Term :=
+  tag "trace" (l.map stepObsT ++ (match feed with | some fs => [tag "feed" (finalsT fs)] | none => []))
+
+def splitFeed : List Term → List Term × Option (List Term)
+  | [] => ([], none)
+  | [.list (.atom "feed" :: fs)] => ([], some fs)
+  | t :: ts => let r := splitFeed ts; (t :: r.1, r.2)
+
+def traceOf? : Term → Option (List StepObs × Option (List (Addr × Nat)))
+  | .list (.atom "trace" :: ss) => do
+      let r := splitFeed ss
+      let steps ← r.1.mapM stepObsOf?
+      match r.2 with
+      | none => pure (steps, none)
+      | some fs => pure (steps, some (← finalsOf? fs))
   | _ => none
 
 def svcTraceOf? : Term → Option (List Bool × List (Addr × Nat))
   | .list [.atom "svc-trace", .list (.atom "emit" :: es), .list (.atom "final" :: fs)] => do
       let es ← es.mapM asBool?
-      let fs ← fs.mapM (fun t => match t with
-        | .list [a, c] => do pure ((← asNat? a), (← asNat? c))
-        | _ => none)
+      let fs ← finalsOf? fs
       pure (es, fs)
   | _ => none
 
 -- ---------------------------------------------------------------- model run ↦ observation
 
 def pathObs (p : Path) : PathObs :=
-  ⟨p.src, p.pid, p.nh, p.flt, p.stale, p.lp, p.eb, p.cl, p.rid, p.rts⟩
+  ⟨p.src, p.pid, p.nh, p.flt, p.stale, p.isLl, p.lp, p.asl, p.org, p.eb, p.cl, p.rid, p.rts⟩
 
 def destObs (d : Dest) : DestObs := ⟨d.pfx, d.paths.map pathObs⟩
 
@@ -148,28 +182,29 @@ def lex3 (a b : Nat × Nat × Nat) : Bool :=
 def fibLe (a b : FibReq) : Bool := lex3 (a.table, a.pfx.fam, a.pfx.id) (b.table, b.pfx.fam, b.pfx.id)
 def destLe (a b : DestObs) : Bool := lex3 (a.pfx.fam, a.pfx.id, 0) (b.pfx.fam, b.pfx.id, 0)
 def natLe (a b : Nat) : Bool := a ≤ b
+def nhtLe (a b : Bool × Addr) : Bool := a.2 ≤ b.2
 
-def regsOf : List (Bool × Addr) → List Addr
-  | [] => []
-  | (true, a) :: rs => a :: regsOf rs
-  | (false, _) :: rs => regsOf rs
-def unregsOf : List (Bool × Addr) → List Addr
-  | [] => []
-  | (false, a) :: rs => a :: unregsOf rs
-  | (true, _) :: rs => unregsOf rs
-
-/-- registers (sorted by address) before unregisters (sorted by address) -/
-def canonNht (l : List (Bool × Addr)) : List (Bool × Addr) :=
-  (sortBy natLe (regsOf l)).map (fun a => (true, a)) ++ (sortBy natLe (unregsOf l)).map (fun a => (false, a))
+/-- stable by address: the relative order of the requests for one address is the order sent -/
+def canonNht (l : List (Bool × Addr)) : List (Bool × Addr) := sortBy nhtLe l
 
 /-- Canonical form (what the harness prints): FIB requests stably sorted by (table, prefix), NHT
-    requests as registers then unregisters, each sorted by address, destinations by prefix. -/
+    requests stably sorted by address, destinations by prefix. -/
 def canonStep (s : StepObs) : StepObs :=
   ⟨sortBy fibLe s.fib, canonNht s.nht, sortBy destLe s.rib⟩
 
-def svcT (es : List Bool) (w : Watched) (reqs : List (Bool × Addr)) : Term :=
-  let addrs := sortBy natLe (reqs.map (·.2)).eraseDups
+def addrsOfLog (l : List (Bool × Addr)) : List Addr := sortBy natLe (l.map (·.2)).eraseDups
+
+def svcT (es : List Bool) (w : Watched) (reqs : List (Option (Bool × Addr))) : Term :=
+  let addrs := addrsOfLog (reqs.filterMap id)
   tag "svc-trace" [tag "emit" (es.map bool),
-                   tag "final" (addrs.map (fun a => list [nat a, nat (watchedGet w a)]))]
+                   tag "final" (finalsT (addrs.map (fun a => (a, watchedGet w a))))]
+
+/-- all tracking requests of a run, in the order the model issues them -/
+def nhtOfRun (r : List (List Req × List Dest)) : List (Bool × Addr) := r.flatMap (fun s => nhtReqs s.1)
+
+/-- what the service loop ends with when fed the tracking requests of the run -/
+def feedOfRun (r : List (List Req × List Dest)) : List (Addr × Nat) :=
+  let log := nhtOfRun r
+  (addrsOfLog log).map (fun a => (a, watchedGet (svcRun [] log).2 a))
 
 end Rbgp.Fib.Codec
